@@ -30,7 +30,7 @@ def cases(tier, seed):
     if tier == "quick":
         # seed-rotated subset, memtype-balanced, DDR4 (slowest) limited
         sel, per = [], {}
-        cap = {"SDR": 10, "DDR": 4, "LPDDR": 4, "DDR2": 8, "DDR3": 16, "DDR4": 6}
+        cap = {"SDR": 9, "DDR": 3, "LPDDR": 3, "DDR2": 7, "DDR3": 12, "DDR4": 4}
         for m in allc:
             if per.get(m["memtype"], 0) < cap[m["memtype"]]:
                 sel.append(m)
